@@ -552,10 +552,30 @@ class FnTr:
         self.bad('member call .%s on %s' % (name, ot))
 
     def src_key(self, n):
-        return None
+        """(additive) source text of a call expression with all whitespace removed, e.g. `u->finalPos()`;
+        used as the key of spec.opaque_calls.  None when the text cannot be recovered."""
+        src = getattr(self, 'src_bytes', None)
+        if src is None or not self.ctx.opaque:
+            return None
+        try:
+            b = n['range']['begin']
+            e = n['range']['end']
+            bo = b['offset'] if 'offset' in b else b['expansionLoc']['offset']
+            eo = (e['offset'] + e.get('tokLen', 1)) if 'offset' in e else (e['expansionLoc']['offset'] + e['expansionLoc'].get('tokLen', 1))
+            return re.sub(r'\s+', '', src[bo:eo].decode('utf8', 'replace'))
+        except (KeyError, TypeError):
+            return None
 
     def opaque_input(self, spec):
-        nm, ty = spec
+        """spec = [name, type]           -> a named extra input (parameter) of the translated function
+           spec = [expr, type, "expr"]   -> (additive) a Coq expression; the word `this` in it stands for the object"""
+        if len(spec) >= 3 and spec[2] == 'expr':
+            e, ty = spec[0], spec[1]
+            if 'this' in self.vartypes and re.search(r'\bthis\b', e):
+                # `this` is never reassigned in the supported fragment unless it is an out; use the current name
+                e = re.sub(r'\bthis\b', 'this', e)
+            return (e, ty)
+        nm, ty = spec[0], spec[1]
         if (nm, ty) not in self.extra_params:
             self.extra_params.append((nm, ty))
         return (nm, ty)
@@ -596,6 +616,14 @@ class FnTr:
                 return m['inner'][0]
         if m.get('kind') == 'IfStmt':
             s = json.dumps(m['inner'][1])
+            # (fix) only `if (!(e)) { throw CriticalFailure(..); }`: the then-branch must consist of the failure statement
+            # alone; an ordinary `if` whose body merely CONTAINS an assertion is not an assertion.
+            body = m['inner'][1]
+            if body.get('kind') == 'CompoundStmt':
+                kids = body.get('inner', [])
+                body = kids[0] if len(kids) == 1 else None
+            if body is None or body.get('kind') not in ('CXXThrowExpr', 'ExprWithCleanups', 'CallExpr'):
+                return None
             if ('CriticalFailure' in s or '__assert_fail' in s) and len(m['inner']) == 2:
                 c = m['inner'][0]
                 return ('not', c)
@@ -658,6 +686,8 @@ class FnTr:
             return False
         if n.get('kind') == 'ReturnStmt':
             return True
+        if self.assert_mode and self.is_assert(n) is not None:
+            return True     # (additive) in assert mode a failing assertion is an early exit
         return any(self.can_return(c) for c in n.get('inner', []))
 
     def falls_through(self, n):
@@ -725,6 +755,12 @@ class FnTr:
         if self.ctx.skip_if_contains:
             txt = json.dumps(s)
             if any(w in txt for w in self.ctx.skip_if_contains):
+                return k(env)
+        if getattr(self.ctx, 'skip_pure', None) and kind != 'CompoundStmt':
+            # (additive) skip a statement mentioning one of the words only if it is *pure*: it contains no return
+            # and assigns no variable declared outside it (a logging statement); compound statements are entered.
+            txt = json.dumps(s)
+            if any(w in txt for w in self.ctx.skip_pure) and not self.can_return(s) and not self.assigned(s):
                 return k(env)
         a = self.is_assert(s)
         if a is not None:
@@ -1173,6 +1209,8 @@ def run_module(spec, mod, repo, outdir):
         if k in mod:
             setattr(ctx, {'records': 'records', 'enum_types': 'enums', 'opaque_calls': 'opaque',
                           'skip_stmt_containing': 'skip_if_contains'}[k], mod[k])
+    ctx.skip_pure = mod.get('skip_pure_stmt_containing', [])
+    ctx.opaque = {re.sub(r'\s+', '', k_): v_ for k_, v_ in ctx.opaque.items()}
     out = []
     out.append('(* GENERATED by tools/cpp2v.py from /repo/cola/%s -- do not edit. *)' % mod['file'])
     out.append('From Adapt Require Import Num.Qaux.')
@@ -1267,6 +1305,10 @@ def run_module(spec, mod, repo, outdir):
             tr = FnTr(ctx, d, coqname, cls)
             if 'opaque' in f:
                 tr.opaque_spec = f['opaque']
+            try:
+                tr.src_bytes = open(os.path.join(repo, 'cola', files[name]), 'rb').read()
+            except OSError:
+                tr.src_bytes = None
             txt, plist, rt = tr.translate()
             srcf, l0, l1, h = source_text(repo, d, files[name])
             out.append('(* %s  %s:%d-%d  sha256/16=%s *)' % (name, srcf, l0, l1, h))
@@ -1275,6 +1317,7 @@ def run_module(spec, mod, repo, outdir):
                 # (additive) second, path-sensitive translation: do all COLA_ASSERTs met on the executed path hold?
                 tra = FnTr(ctx, d, coqname + '_asserts_ok', cls)
                 tra.assert_mode = True
+                tra.src_bytes = getattr(tr, 'src_bytes', None)
                 atxt, _, _ = tra.translate()
                 out.append(atxt)
             pre = [p[1] for p in tr.pre if p[0] == 'expr']
